@@ -160,6 +160,36 @@ namespace hv
             static constexpr auto name = "ho_add_key_g";
             static P compose(Wiring &w, NamedPort<"key", TS<Int>> key, P ts) { return wire<NAddKey>(w, key, ts); }
         };
+        // branches over a set input: delta-driven state (running sum of added minus removed), and a stateless reader of the value
+        template <int Sign>
+        struct NSumDelta
+        {
+            static constexpr auto name = Sign > 0 ? "ho_sum_delta" : "ho_neg_sum_delta";
+            static void start(State<Int> s) { s.set(Int{0}); }
+            static void eval(In<"s", TSS<Int>> s, State<Int> st, DateTime now, Out<TS<Int>> out)
+            {
+                long long v = st.get();
+                for (auto &&x : s.added()) v += static_cast<long long>(x);
+                for (auto &&x : s.removed()) v -= static_cast<long long>(x);
+                st.set(Int{v});
+                hlog("ev", Sign > 0 ? "SumDelta" : "NegSumDelta", now, v);
+                out.set(Int{Sign * v});
+            }
+        };
+        struct NSumValue
+        {
+            static constexpr auto name = "ho_sum_value";
+            static void eval(In<"s", TSS<Int>> s, DateTime now, Out<TS<Int>> out)
+            {
+                long long v = 0;
+                for (auto &&x : s.values()) v += static_cast<long long>(x);
+                hlog("ev", "SumValue", now, v);
+                out.set(Int{v + 100000});
+            }
+        };
+        struct SumDeltaG { static constexpr auto name = "ho_sum_delta_g"; static P compose(Wiring &w, Port<TSS<Int>> s) { return wire<NSumDelta<1>>(w, s); } };
+        struct NegSumDeltaG { static constexpr auto name = "ho_neg_sum_delta_g"; static P compose(Wiring &w, Port<TSS<Int>> s) { return wire<NSumDelta<-1>>(w, s); } };
+        struct SumValueG { static constexpr auto name = "ho_sum_value_g"; static P compose(Wiring &w, Port<TSS<Int>> s) { return wire<NSumValue>(w, s); } };
         struct TickAfterG { static constexpr auto name = "ho_tick_after_g"; static P compose(Wiring &w, P ts) { return wire<NTickAfter>(w, ts); } };
         struct FailOnG { static constexpr auto name = "ho_fail_on_g"; static P compose(Wiring &w, P ts) { return wire<NFailOn>(w, ts); } };
         struct PulseFailG { static constexpr auto name = "ho_pulse_fail_g"; static P compose(Wiring &w, P ts) { return wire<NFailOn>(w, wire<NPulse>(w, ts)); } };
@@ -257,6 +287,9 @@ namespace hv
             if (f == "FailOn") return fn<FailOnG>();
             if (f == "PulseFail") return fn<PulseFailG>();
             if (f == "Add2") return fn<Add2G>();
+            if (f == "SumDelta") return fn<SumDeltaG>();
+            if (f == "NegSumDelta") return fn<NegSumDeltaG>();
+            if (f == "SumValue") return fn<SumValueG>();
             if (f == "TickAdd2") return fn<TickAdd2G>();
             if (f == "ConstSource") return fn<ConstSourceG>();
             if (f == "Chain") return fn<ChainG>();
@@ -390,6 +423,13 @@ namespace hv
                         if (st.has("default")) sc.default_branch = fn_by_name(st.get("default"));
                         if (st.geti("reload", 0)) sc.reload_on_ticked = true;
                         Port<TS<Int>> key{w, src(st, "key")};
+                        if (st.has("s"))
+                        {   // a set-valued held input (branches: SumDelta / NegSumDelta / SumValue)
+                            Port<void> so = wire<stdlib::switch_>(w, key, std::move(sc), Port<TSS<Int>>{w, src(st, "s")});
+                            ps.ref[id]   = so.as<TS<Int>>().erased();
+                            ps.shape[id] = "TS";
+                            continue;
+                        }
                         Port<TS<Int>> x{w, src(st, "x")};
                         Port<void> out = st.has("y") ? wire<stdlib::switch_>(w, key, std::move(sc), x, Port<TS<Int>>{w, src(st, "y")})
                                                      : wire<stdlib::switch_>(w, key, std::move(sc), x);
